@@ -4,4 +4,4 @@ Require Import ExtrOcamlBasic.
 From Verif Require Import Common.Util Sync.Model.
 Extraction Language OCaml.
 Extraction "../oracle/c19/model.ml"
-  find_common_ancestor ov_of_chains ancestor_fuel download_script decode_batch.
+  find_common_ancestor ov_of_chains ov_synth ancestor_fuel download_script decode_batch.
